@@ -169,8 +169,16 @@ func VerifH11() {
 		stuffed = nondetBytes(1 + vChoose(vParam("STUFF", 4)))
 	}
 	var seenUsers [][]byte
+	var closer *Server
 	mw := SessionMiddleware(func(ctx context.Context) (context.Context, error) {
 		seenUsers = append(seenUsers, []byte(ClientParameters(ctx)[ParamUsername]))
+		// CLOSEINSIDE=1: the embedder shuts the server down while this connection
+		// is being set up (no command is running: Close returns at once);
+		// whatever Close tells or does to the connections it knows of, it does it
+		// inside their TLS sessions
+		if closer != nil {
+			closer.Close() //nolint
+		}
 		return ctx, nil
 	})
 	w := &vWorld{parseMenu: 2, execMenu: 2}
@@ -208,6 +216,17 @@ func VerifH11() {
 		srv.TLSConfig = tlsCfg
 	}
 	session := vCat(vStartup(vKV([]byte("user"), []byte("u"))), vMsgBytes('X', nil))
+	if vParam("CLOSEINSIDE", 0) == 1 {
+		vAssume(cfgKind == 2)
+		closer = srv
+		run := vServeTLS(srv, vCat(vSSLRequest, stuffed), session)
+		vAssert("no-panic", !run.escaped)
+		vAssert("ssl-accepted-with-single-S", len(run.rawOut) >= 1 && run.rawOut[0] == 'S')
+		vAssert("nothing-but-TLS-after-S", vOnlyTLSRecords(run.rawOut[1:]))
+		vAssert("session-inside-TLS-wellformed", vWireOK(run.innerOut))
+		vReach("server-closed-while-a-tls-connection-is-open")
+		return
+	}
 	if vParam("PANICS", 0) == 1 {
 		vAssume(cfgKind == 2)
 		session = vCat(vStartup(vKV([]byte("user"), []byte("u"))), vMsgBytes('Q', vCStr([]byte("boom"))), vMsgBytes('X', nil))
